@@ -35,6 +35,8 @@ type ConnSet struct {
 	Conns []*LConn
 	First string
 	nOpen int
+	// Order, if set, is the order in which OpenEv opens the connections (a permutation of their indexes).
+	Order []int
 	// KeySpan is how many accept indexes of a target an application must be able to recognise.
 	KeySpan int
 	// Cross lets every receiver recognise every writer of the run (mis-routing becomes attributable).
@@ -119,6 +121,9 @@ func (cs *ConnSet) OpenEv(before func(i int)) []Ev {
 		return nil
 	}
 	i := cs.nOpen
+	if len(cs.Order) == len(cs.Conns) {
+		i = cs.Order[cs.nOpen]
+	}
 	return []Ev{{Kind: "app", Desc: fmt.Sprintf("open conn %d", i), key: fmt.Sprintf("o%04d", i), Do: func() {
 		if before != nil {
 			before(i)
